@@ -186,6 +186,11 @@ Inductive att_request :=
 | Notification (h : N) (v : bytes)
 | Confirmation
 | UnknownOp (opcode : N) (body : bytes).
+(** [UnknownOp o b] stands for every PDU that none of the constructors above describes: an opcode the
+    ATT layer does not know, a known request whose parameters cannot be dissected, and every
+    RESPONSE-type PDU a client sends although the server asked nothing (Error Response 0x01, Exchange
+    MTU Response 0x03, Read Response 0x0B, ...: the ATT layer forwards them to GATT, which puts the
+    first two on the unbounded queue its own procedures read and ignores the others). *)
 
 (** encoded length of the request PDU *)
 Definition req_size (r : att_request) : N :=
